@@ -89,6 +89,17 @@ void perform(int who, int s) {
       x = ob(a);
       if (x) { add(({ "present-begin", who, a })); present("thing", x); add(({ "present-end", who, a })); }
       break;
+    case 14:   // call_out with object a as an extra argument (b: 0 efun-pointer callback (: call_other :) with a first,
+               // 1 named callback with a first, 2 named callback with a second); a may be destructed before it is due
+      x = ob(a);
+      if (!x) { add(({ "nop", who, op, a, b })); break; }
+      switch (b) {
+        case 0: call_out((: call_other :), 1, x, "poke", 1); break;
+        case 1: call_out("co_take", 1, x, 0); break;
+        default: call_out("co_take", 1, 0, x);
+      }
+      add(({ "co-arg", who, a, b }));
+      break;
     case 13:   // an argument that is evaluated later destructs an object that is already pending on the stack (b = shape)
       shape(who, a, b);
       break;
@@ -96,6 +107,7 @@ void perform(int who, int s) {
     case 8: x = ob(who); if (x) { add(({ "cmd-begin", who })); a = x->raw_command(); add(({ "cmd-end", who, a })); } break;
   }
 }
+void co_take(mixed o1, mixed o2) { add(({ "co-take", -1, idof(o1), idof(o2) })); }
 // kill(a): destruct object a in the middle of an argument list; the value is whatever the shape needs next
 mixed kill(int who, int a, mixed ret) { perform(who, 3 | a << 8); return ret; }
 void take(mixed o, mixed dummy) { add(({ "shape-arg", -1, objectp(o) })); }
